@@ -61,7 +61,12 @@ def _install_fake_datetime():
 
         @classmethod
         def utcnow(cls):
-            return cls.now()
+            # the sandbox's local zone is UTC+3: code that confuses utcnow() with now() writes a visibly wrong time
+            n = cls.now()
+            if cls._vt_now is None:
+                return real.utcnow()
+            m = n - _dt.timedelta(hours=3)
+            return cls(m.year, m.month, m.day, m.hour, m.minute, m.second, m.microsecond)
     datetime.__qualname__ = 'datetime'
     datetime.__module__ = 'datetime'
     _dt.datetime = datetime
@@ -206,7 +211,7 @@ class Sandbox(object):
         self.destroy()
 
     # -----------------------------------------------------------------------------------------
-    def spawn(self, argv, stdin=None, env=None, cwd=None, plan=None, now=None, close_fds=()):
+    def spawn(self, argv, stdin=None, env=None, cwd=None, plan=None, now=None, close_fds=(), stdin_fd=None, stdout_fd=None):
         """fork the child; returns (pid, files) -- used directly by the scheduler (E5)"""
         spec = self.spec
         self.nrun += 1
@@ -242,8 +247,8 @@ class Sandbox(object):
                     os.close(fd)
                 except OSError:
                     pass
-            fin = os.open(files['in'], os.O_RDONLY)
-            fout = os.open(files['out'], os.O_WRONLY | os.O_CREAT | os.O_TRUNC, 0o600)
+            fin = stdin_fd if stdin_fd is not None else os.open(files['in'], os.O_RDONLY)
+            fout = stdout_fd if stdout_fd is not None else os.open(files['out'], os.O_WRONLY | os.O_CREAT | os.O_TRUNC, 0o600)
             ferr = os.open(files['err'], os.O_WRONLY | os.O_CREAT | os.O_TRUNC, 0o600)
             ftr = os.open(files['trace'], os.O_WRONLY | os.O_CREAT | os.O_TRUNC, 0o600)
             os.chroot(self.root)
@@ -433,3 +438,54 @@ def _sandbox_probe(self, fn, arg, cwd=None):
 
 Sandbox.probe = _sandbox_probe
 Sandbox.denote = lambda self, args, cwd=None: self.probe(_probe_denote, list(args), cwd)
+
+
+def _run_dialogue(self, argv, steps, quiet_s=0.15, **kw):
+    """run a command whose stdin/stdout are pipes and talk to it: steps = [(action, reply)], where action is None or a
+    callable(sandbox) executed while the command is blocked at its prompt (the environment changes under its feet),
+    reply is the line to send (None = close stdin).  The prompt is recognised by output that stops without a newline."""
+    import select
+    in_r, in_w = os.pipe()
+    out_r, out_w = os.pipe()
+    pid, files = self.spawn(argv, stdin_fd=in_r, stdout_fd=out_w, close_fds=(in_w, out_r), **kw)
+    os.close(in_r)
+    os.close(out_w)
+    out = b''
+
+    def read_until_quiet():
+        nonlocal out
+        got_any = False
+        while True:
+            r, _, _ = select.select([out_r], [], [], 5.0 if not got_any else quiet_s)
+            if not r:
+                return True
+            chunk = os.read(out_r, 65536)
+            if not chunk:
+                return False
+            out += chunk
+            got_any = True
+    alive = True
+    for action, reply in steps:
+        if alive:
+            alive = read_until_quiet()
+        if not alive:
+            break
+        if action is not None:
+            action(self)
+        if reply is None:
+            break
+        os.write(in_w, (reply + '\n').encode('utf-8', 'surrogateescape'))
+    os.close(in_w)
+    while True:
+        chunk = os.read(out_r, 65536)
+        if not chunk:
+            break
+        out += chunk
+    os.close(out_r)
+    _, status = os.waitpid(pid, 0)
+    with open(files['out'], 'wb') as f:
+        f.write(out)
+    return self.result(status, files)
+
+
+Sandbox.run_dialogue = _run_dialogue
